@@ -31,23 +31,18 @@ def run(ctx):
 
     # E1 inputs ---------------------------------------------------------------------------------
     if thorough:
-        ctx.check_model(pc.SPEC, 'MCParFor.tla', 'MC_c12_w6.cfg', WHAT, workers=4, timeout=2400,
-                        label='all ranges of 6-bit types x options')
-        ctx.check_model(pc.SPEC, 'MCParFor.tla', 'MC_c12_w6_opts.cfg', WHAT, workers=4, timeout=2400,
-                        label='edge ranges of 6-bit types x all options')
-        ctx.check_model(pc.SPEC, 'MCParFor.tla', 'MC_c12_w8.cfg', WHAT, workers=4, timeout=2400,
-                        label='all ranges of 8-bit types')
+        pc.model(ctx, 'MCParFor.tla', 'MC_c12_w6.cfg', WHAT, 'all ranges of 6-bit types x options')
+        pc.model(ctx, 'MCParFor.tla', 'MC_c12_w6_opts.cfg', WHAT, 'edge ranges of 6-bit types x all options')
+        pc.model(ctx, 'MCParFor.tla', 'MC_c12_w8.cfg', WHAT, 'all ranges of 8-bit types')
     else:
-        ctx.check_model(pc.SPEC, 'MCParFor.tla', 'MC_c12_quick_ranges.cfg', WHAT, workers=4,
-                        label='all ranges of 5-bit types')
-        ctx.check_model(pc.SPEC, 'MCParFor.tla', 'MC_c12_quick_opts.cfg', WHAT, workers=4,
-                        label='edge ranges of 6-bit types x options')
+        pc.model(ctx, 'MCParFor.tla', 'MC_c12_quick_ranges.cfg', WHAT, 'all ranges of 5-bit types')
+        pc.model(ctx, 'MCParFor.tla', 'MC_c12_quick_opts.cfg', WHAT, 'edge ranges of 6-bit types x options')
     # E1 schedules ------------------------------------------------------------------------------
-    ctx.check_model(pc.SPEC, 'StripeWorkers.tla',
-                    'MC_workers_thorough.cfg' if thorough else 'MC_workers_quick.cfg', WHAT, workers=4,
-                    timeout=2400, label='stripe claims, every interleaving')
-    ctx.check_model(pc.SPEC, 'DynWorkers.tla', 'MC_dyn_thorough.cfg' if thorough else 'MC_dyn_quick.cfg',
-                    WHAT, workers=4, timeout=2400, label='dynamic index claims, every interleaving')
+    # (the worker state machines have several actions: coverage-based vacuity check in thorough)
+    pc.model(ctx, 'StripeWorkers.tla', 'MC_workers_thorough.cfg' if thorough else 'MC_workers_quick.cfg', WHAT,
+             'stripe claims, every interleaving', coverage=thorough, min_states=1000)
+    pc.model(ctx, 'DynWorkers.tla', 'MC_dyn_thorough.cfg' if thorough else 'MC_dyn_quick.cfg', WHAT,
+             'dynamic index claims, every interleaving', coverage=thorough, min_states=1000)
     # negative controls -------------------------------------------------------------------------
     pc.negative_control(ctx, 'MCParFor.tla', 'MC_neg_cursor.cfg',
                         'fetch_add stripe cursor wraps when the range ends near the maximum of a 64-bit type')
@@ -58,11 +53,18 @@ def run(ctx):
                             'fetch_add stripe cursor, interleaved workers')
 
     # E5 ----------------------------------------------------------------------------------------
-    for suite, tr, tot in bg.join():
+    done = bg.join()
+    if not thorough:
+        # one TLC start instead of three
+        allp = os.path.join(ctx.work, 'all.ndjson')
+        with open(allp, 'w') as f:
+            for suite, tr, tot in done:
+                f.write(open(tr).read())
+        done = [('i8+wide+nest', allp, {'completed': sum(t.get('completed', 0) for _, _, t in done)})]
+    for suite, tr, tot in done:
         ctx.validate(pc.SPEC, 'ParForTrace.tla', 'ParForTrace_C12.cfg', tr, WHAT,
                      executions=tot.get('completed', 0), label='records ' + suite, timeout=2400)
-        if suite == 'wide':
-            ctx.sample_trace(tr, 3, skip=5)
+        ctx.sample_trace(tr, 2, skip=900)
     ctx.assumptions += [
         'count arithmetic (ssize_t / size_type: items, chunks, chunk sizes) does not overflow 64 bits: range sizes below 2^62',
         'signed 64-bit ranges are no longer than INT64_MAX (ChunkedRange documents this limit)',
